@@ -53,7 +53,7 @@ def gen_plan(rng, tier, run):
             "bufsize": rng.choice([0, 64, 8192, None, None]),
             "stdout_bufsize": rng.choice([0, 8192, None]),
             "order": {"policy": rng.choice(["perm", "asc", "desc"]), "key": rng.randrange(1 << 30)},
-            "opts": list(rng.choice(common.SELECTION_SETS)),
+            "opts": common.gen_selection(rng),
             "fseed": rng.randrange(1 << 30),
             "enum": "full" if (tier == "thorough" and rng.random() < 0.12) else "reduced",
             "double": (tier == "thorough" and rng.random() < 0.3),
